@@ -313,4 +313,60 @@ theorem EncodeSInt32_refines (fuel : Nat) (hf : 10 ≤ fuel) (p : Bytes) (off ta
       store_panic p _ _ (by simp; omega)
     simp only [hst, EncOut.ofRes, s1bad h1]
 
+/-! ### `EncodeBool`: key, then one indexed store -/
+
+theorem set_writeAt (q : Bytes) (i : Nat) (b : UInt8) (h : i < q.length) : q.set i b = writeAt q i [b] := by
+  rw [List.set_eq_take_append_cons_drop]
+  simp [h, writeAt]
+
+/-- **`(*Encoder).EncodeBool` of the source refines `Enc.step (.bool tag v)`**: the byte for `false` is STORED too (the
+    destination may hold anything), and the call panics exactly when key + 1 byte do not fit -/
+theorem EncodeBool_refines (fuel : Nat) (hf : 10 ≤ fuel) (p : Bytes) (off tag : BitVec 64) (v : Bool)
+    (hp : p.length < 2 ^ 63) (hoff : off.toNat ≤ p.length) :
+    match ({ buf := p, off := off.toNat } : Enc).step (.bool tag.toNat v) with
+    | .ok e' => ∃ s, Encoder_EncodeBool fuel p off tag v = .ret () s ∧ s.e_p = e'.buf ∧ s.e_offset.toNat = e'.off
+    | .panic => Encoder_EncodeBool fuel p off tag v = .panic
+    | .err _ => False := by
+  have hwt : wtVarint = (0#64).toNat := rfl
+  obtain ⟨s1ok, s1bad⟩ := stage (EncodeTag fuel (p.drop off.toNat) tag 0#64) (·.dest) p off (encTag tag.toNat wtVarint) hp hoff
+    (fun h => by rw [hwt] at h ⊢; exact EncodeTag_ok fuel _ tag 0#64 hf h)
+    (fun h => by rw [hwt] at h; exact EncodeTag_short fuel _ tag 0#64 hf h)
+  unfold Encoder_EncodeBool Encoder_EncodeBool.body
+  simp only [Go.seq, hoff, if_true, Enc.step, EncOp.wire]
+  by_cases h1 : off.toNat + (encTag tag.toNat wtVarint).length ≤ p.length
+  · obtain ⟨c1, hc1, hw1, ha1⟩ := s1ok h1
+    have hlen1 : (writeAt p off.toNat (encTag tag.toNat wtVarint)).length = p.length := writeAt_length h1
+    simp only [hc1, hw1, hlen1, ha1]
+    by_cases h2 : off.toNat + (encTag tag.toNat wtVarint).length < p.length
+    · have hst : ({ buf := p, off := off.toNat } : Enc).store (encTag tag.toNat wtVarint ++ [boolByte v]) =
+          .ok { buf := writeAt p off.toNat (encTag tag.toNat wtVarint ++ [boolByte v]), off := off.toNat + (encTag tag.toNat wtVarint ++ [boolByte v]).length } :=
+        store_ok p _ _ (by simp only [List.length_append, List.length_singleton]; omega)
+      have hww : writeAt (writeAt p off.toNat (encTag tag.toNat wtVarint)) (off.toNat + (encTag tag.toNat wtVarint).length) [boolByte v] =
+          writeAt p off.toNat (encTag tag.toNat wtVarint ++ [boolByte v]) :=
+        writeAt_writeAt p off.toNat _ _ (by simp only [List.length_singleton]; omega)
+      have hsetlen : off.toNat + (encTag tag.toNat wtVarint).length < (writeAt p off.toNat (encTag tag.toNat wtVarint)).length := by
+        rw [hlen1]; exact h2
+      have hadv : (off + BitVec.ofNat 64 (encTag tag.toNat wtVarint).length + 1#64).toNat = off.toNat + (encTag tag.toNat wtVarint).length + 1 := by
+        have := adv_toNat (off + BitVec.ofNat 64 (encTag tag.toNat wtVarint).length) 1 (by rw [ha1]; omega)
+        rw [ha1] at this; exact this
+      simp only [hst, EncOut.ofRes, h2, if_true]
+      cases v
+      · simp only [Bool.false_eq_true, if_false, Go.wr]
+        refine ⟨_, rfl, ?_, ?_⟩
+        · show (writeAt p off.toNat (encTag tag.toNat wtVarint)).set _ _ = _
+          rw [set_writeAt _ _ _ hsetlen, ← hww]; rfl
+        · simp only [List.length_append, List.length_singleton]; rw [hadv]; omega
+      · simp only [if_true, Go.wr]
+        refine ⟨_, rfl, ?_, ?_⟩
+        · show (writeAt p off.toNat (encTag tag.toNat wtVarint)).set _ _ = _
+          rw [set_writeAt _ _ _ hsetlen, ← hww]; rfl
+        · simp only [List.length_append, List.length_singleton]; rw [hadv]; omega
+    · have hst : ({ buf := p, off := off.toNat } : Enc).store (encTag tag.toNat wtVarint ++ [boolByte v]) = .panic :=
+        store_panic p _ _ (by simp only [List.length_append, List.length_singleton]; omega)
+      simp only [hst, EncOut.ofRes, h2, if_false]
+      cases v <;> simp
+  · have hst : ({ buf := p, off := off.toNat } : Enc).store (encTag tag.toNat wtVarint ++ [boolByte v]) = .panic :=
+      store_panic p _ _ (by simp only [List.length_append, List.length_singleton]; omega)
+    simp only [hst, EncOut.ofRes, s1bad h1]
+
 end Csproto.Bridge.EncoderFuncs
